@@ -1,12 +1,13 @@
 #!/bin/bash
-# For every kept sub-agent mutant: apply to /repo, run its property's quick check, revert.  Output /tmp/mut/detect.tsv
+# For every kept sub-agent mutant: apply to /repo, run its property's quick check, revert.  Output $MUT/detect.tsv
 set -u
+MUT=${MUT:-/tmp/mut}
 cd /repo; [ -z "$(git status --porcelain --untracked-files=no)" ] || { echo "/repo not clean"; exit 2; }
-: > /tmp/mut/detect.tsv
-for P in 01 02 03 04 05 06 07 08 09 10 11 12 13 14 15 16 17 18 19 20; do for m in m1 m2; do
-  M=/tmp/mut/C$P/$m
+[ -n "${APPEND:-}" ] || : > $MUT/detect.tsv
+for P in ${PROPS:-01 02 03 04 05 06 07 08 09 10 11 12 13 14 15 16 17 18 19 20}; do for m in m1 m2; do
+  M=$MUT/C$P/$m
   cd /repo
-  if ! git apply $M/patch.diff 2>/dev/null; then echo -e "C$P\t$m\tPATCH-DOES-NOT-APPLY" >> /tmp/mut/detect.tsv; continue; fi
+  if ! git apply $M/patch.diff 2>/dev/null; then echo -e "C$P\t$m\tPATCH-DOES-NOT-APPLY" >> $MUT/detect.tsv; continue; fi
   extra=""
   [ "C$P" = "C05" ] && [ $m = m2 ] && extra="C17"
   [ "C$P" = "C02" ] && extra="C06"
@@ -14,10 +15,10 @@ for P in 01 02 03 04 05 06 07 08 09 10 11 12 13 14 15 16 17 18 19 20; do for m i
   [ "C$P" = "C04" ] && [ $m = m2 ] && extra="C15"
   [ "C$P" = "C16" ] && [ $m = m2 ] && extra="C10"
   for Q in C$P $extra; do
-    (cd /verif && ./check $Q quick) > /tmp/mut/det.out 2>&1; rc=$?
-    sigs=$(grep -E "signature:" /tmp/mut/det.out | sed 's/.*signature: //' | sort -u | head -4 | tr '\n' ';')
-    echo -e "C$P\t$m\t$Q\trc=$rc\t$sigs" >> /tmp/mut/detect.tsv
+    (cd /verif && ./check $Q quick) > $MUT/det.out 2>&1; rc=$?
+    sigs=$(grep -E "signature:" $MUT/det.out | sed 's/.*signature: //' | sort -u | head -4 | tr '\n' ';')
+    echo -e "C$P\t$m\t$Q\trc=$rc\t$sigs" >> $MUT/detect.tsv
   done
   cd /repo; git checkout -q -- .
 done; done
-echo DONE >> /tmp/mut/detect.tsv
+echo DONE >> $MUT/detect.tsv
